@@ -158,7 +158,9 @@ where
     }
 
     async fn client_shutdown(&mut self, id: ConnectionId) -> Result<(), ConnectionError<T::Error>> {
-        self.send_broker_shutdown(id).await?;
+        // The broker may have shut down in the meantime. The client still expects a reply to its
+        // `Shutdown`.
+        let _ = self.send_broker_shutdown(id).await;
         self.send_message(Shutdown).await?;
         self.drain_broker_recv().await;
 
